@@ -1,6 +1,7 @@
-(* C02 -- the condition-expression parser accepts exactly the documented language; everything else is SyntaxError.
-   (Model: Model/Lex.v; the AHB-expression scanner and the resolver are covered in Props/C02 part 2, see DESIGN.md 12.) *)
-From Ahb Require Import Model.Prelude Model.Grammar Gen.Gen_grammar Model.Lex Proofs.C01_parse Proofs.C02_language.
+(* C02 -- the parsers accept exactly the documented language; everything else is SyntaxError.
+   Models: Model/Lex.v (condition expressions), Model/Ahb.v (AHB-expression scanner, resolver's try/except structure). *)
+From Ahb Require Import Model.Prelude Model.Grammar Gen.Gen_grammar Gen.Gen_ahbgrammar Model.Lex Model.EvalAhb Model.Ahb
+  Proofs.C01_parse Proofs.C02_language Proofs.C02_resolver.
 
 Theorem C02_condition_only_syntaxerror : forall s, (exists t, parse_cond s = Ok t) \/ parse_cond s = Exn SyntaxErr.
 Proof. exact parse_cond_only_syntaxerror. Qed.
@@ -16,3 +17,17 @@ Print Assumptions C02_accepts_iff_documented.
 Theorem C02_wf_is_the_grammar : forall its, wf its = true <-> exists e, GFc its e.
 Proof. exact wf_iff_grammar. Qed.
 Print Assumptions C02_wf_is_the_grammar.
+
+Theorem C02_ahb_only_syntaxerror : forall s, (exists ps, parse_ahb s = Ok ps) \/ parse_ahb s = Exn SyntaxErr.
+Proof. exact parse_ahb_only_syntaxerror. Qed.
+Print Assumptions C02_ahb_only_syntaxerror.
+
+Theorem C02_resolver_only_syntaxerror : forall s, (exists r, resolve_str s = Ok r) \/ resolve_str s = Exn SyntaxErr.
+Proof. exact resolve_only_syntaxerror. Qed.
+Print Assumptions C02_resolver_only_syntaxerror.
+
+Theorem C02_ahb_condition_part_checked : forall s ps, parse_ahb s = Ok ps ->
+  (exists t ce, In (RP t (Some ce)) ps /\ parse_cond ce = Exn SyntaxErr) ->
+  parse_cond s = Exn SyntaxErr -> resolve_str s = Exn SyntaxErr.
+Proof. exact condition_part_checked. Qed.
+Print Assumptions C02_ahb_condition_part_checked.
